@@ -3,6 +3,7 @@ package main
 import (
 	"fmt"
 	"go/constant"
+	"go/token"
 	"go/types"
 	"sort"
 
@@ -241,6 +242,93 @@ func rulesC12(c *Ctx) {
 	c.Rule("C12.clonefirst", "RewriteFields works on a clone: no store reaches memory of its receiver or of the mapper")
 	readonly(c, "C12.clonefirst", func(f *types.Func) bool { return FuncName(f) == "(*SelectStatement).RewriteFields" })
 	callScopeC12(c)
+	mergeConstC12(c, p.SSAFunc(lt))
+	wildcardCallC12(c)
+}
+
+// wildcardCallC12: the types a wildcard may expand to are chosen by the
+// function that directly holds the wildcard.
+func wildcardCallC12(c *Ctx) {
+	p := c.P
+	c.Rule("C12.wildcardcall", "in RewriteFields the function name that selects the supported types is read from the same call node whose first argument was found to be the wildcard or regex (the innermost call): the name of an enclosing call admits or drops the wrong column types")
+	f := p.SSAFunc(p.Method("SelectStatement", "RewriteFields"))
+	if f == nil {
+		c.Unk("C12.wildcardcall", "(*SelectStatement).RewriteFields", 0, "anchor not found")
+		return
+	}
+	callT := p.Named("Call")
+	isCallPtr := func(t types.Type) bool {
+		pt, ok := t.(*types.Pointer)
+		return ok && callT != nil && types.Identical(pt.Elem(), callT)
+	}
+	wild := map[ssa.Value]bool{}
+	for _, b := range f.Blocks {
+		for _, in := range b.Instrs {
+			ta, ok := in.(*ssa.TypeAssert)
+			if !ok {
+				continue
+			}
+			if t := p.TypeStr(ta.AssertedType); t != "*Wildcard" && t != "*RegexLiteral" {
+				continue
+			}
+			// ta.X = *IndexAddr(*FieldAddr(base, Args), 0)
+			ld, ok := ta.X.(*ssa.UnOp)
+			if !ok {
+				continue
+			}
+			ia, ok := ld.X.(*ssa.IndexAddr)
+			if !ok {
+				continue
+			}
+			ld2, ok := ia.X.(*ssa.UnOp)
+			if !ok {
+				continue
+			}
+			fa, ok := ld2.X.(*ssa.FieldAddr)
+			if !ok || fieldNameOf(fa) != "Args" || !isCallPtr(fa.X.Type()) {
+				continue
+			}
+			wild[fa.X] = true
+		}
+	}
+	if len(wild) == 0 {
+		c.Unk("C12.wildcardcall", "(*SelectStatement).RewriteFields: wildcard argument", f.Pos(), "no assertion of a call's first argument to *Wildcard / *RegexLiteral found")
+		return
+	}
+	n := 0
+	for _, b := range f.Blocks {
+		for _, in := range b.Instrs {
+			bo, ok := in.(*ssa.BinOp)
+			if !ok || bo.Op != token.EQL {
+				continue
+			}
+			k, ok := bo.Y.(*ssa.Const)
+			if !ok || k.Value == nil || k.Value.Kind() != constant.String {
+				continue
+			}
+			ld, ok := bo.X.(*ssa.UnOp)
+			if !ok {
+				continue
+			}
+			fa, ok := ld.X.(*ssa.FieldAddr)
+			if !ok || fieldNameOf(fa) != "Name" || !isCallPtr(fa.X.Type()) {
+				continue
+			}
+			n++
+			if n > 1 {
+				continue // one obligation per switch: all its comparisons read the same load
+			}
+			key := "(*SelectStatement).RewriteFields: function name that selects the types"
+			if wild[fa.X] {
+				c.OK("C12.wildcardcall", key, bo.Pos(), "read from the call that holds the wildcard")
+			} else {
+				c.Bad("C12.wildcardcall", key, bo.Pos(), "read from another call node than the one whose first argument is the wildcard (an enclosing call): count(*) inside cumulative_sum() is expanded with cumulative_sum's types")
+			}
+		}
+	}
+	if n == 0 {
+		c.Unk("C12.wildcardcall", "(*SelectStatement).RewriteFields: function name that selects the types", f.Pos(), "no comparison of a call's name with a constant found")
+	}
 }
 
 // callScopeC12: the per-call type filter does not outlive the call it is for.
@@ -312,4 +400,75 @@ func callScopeC12(c *Ctx) {
 		}
 	}
 	c.Floor("C12.callscope", n, 1)
+}
+
+// mergeConstC12: a constant type may replace the merged type only when no
+// type has been found yet.
+func mergeConstC12(c *Ctx, ltSSA *ssa.Function) {
+	p := c.P
+	c.Rule("C12.mergeconst", "where the type of a reference is accumulated over sources with LessThan, a constant type (Tag for a GROUP BY key of a subquery) is assigned to the accumulator only on a branch where the accumulator was just tested equal to Unknown: otherwise a field type found in one source is overwritten by a like-named tag of a later one, and the answer depends on source order")
+	if ltSSA == nil {
+		c.Unk("C12.mergeconst", "DataType.LessThan", 0, "anchor not found")
+		return
+	}
+	dt := p.Named("DataType")
+	n := 0
+	for _, f := range p.allSSAFuncs() {
+		// accumulators: DataType phis used as receiver of LessThan
+		accs := map[*ssa.Phi]bool{}
+		for _, b := range f.Blocks {
+			for _, in := range b.Instrs {
+				if call, ok := in.(*ssa.Call); ok && call.Call.StaticCallee() == ltSSA && len(call.Call.Args) == 2 {
+					if phi, ok := call.Call.Args[0].(*ssa.Phi); ok {
+						accs[phi] = true
+					}
+				}
+			}
+		}
+		if len(accs) == 0 {
+			continue
+		}
+		// all DataType phis that feed an accumulator (the variable's other versions)
+		for _, b := range f.Blocks {
+			for _, in := range b.Instrs {
+				phi, ok := in.(*ssa.Phi)
+				if !ok || dt == nil || !types.Identical(phi.Type(), dt) {
+					continue
+				}
+				for i, e := range phi.Edges {
+					k, ok := e.(*ssa.Const)
+					if !ok || k.Value == nil || constant.Sign(k.Value) == 0 {
+						continue // Unknown (zero) is the initial value
+					}
+					pred := phi.Block().Preds[i]
+					n++
+					key := fmt.Sprintf("%s: accumulator := %s", ssaFuncName(f), k.Value.String())
+					guarded := false
+					for d := pred; d != nil; d = d.Idom() {
+						ifi, ok := d.Instrs[len(d.Instrs)-1].(*ssa.If)
+						if !ok {
+							continue
+						}
+						bo, ok := ifi.Cond.(*ssa.BinOp)
+						if !ok || bo.Op != token.EQL || !types.Identical(bo.X.Type(), dt) {
+							continue
+						}
+						z, ok := bo.Y.(*ssa.Const)
+						if !ok || z.Value == nil || constant.Sign(z.Value) != 0 {
+							continue
+						}
+						if d.Succs[0] == pred || d.Succs[0].Dominates(pred) {
+							guarded = true
+						}
+					}
+					if guarded {
+						c.OK("C12.mergeconst", key, phi.Pos(), "assigned only where the accumulator was tested == Unknown")
+					} else {
+						c.Bad("C12.mergeconst", key, phi.Pos(), "a constant type is assigned to the merged type without a test that nothing was found yet: a type found in an earlier source is overwritten")
+					}
+				}
+			}
+		}
+	}
+	c.Floor("C12.mergeconst", n, 1)
 }
